@@ -240,14 +240,55 @@ def r_defaults(ctx, model):
                 return BoundLib("jsv.check", self)
             raise ev.err(f"jsonschema validator attribute {name}", node, mod)
 
+    class TypeCheckerV:
+        """jsonschema TypeChecker: the standard checks plus redefinitions {type name: function(checker, instance)}"""
+        def __init__(self, over=None):
+            self.over = dict(over or {})
+
+        def sym_getattr(self, ev, name, node, mod):
+            if name in ("redefine", "redefine_many", "remove"):
+                return BoundLib(f"jstc.{name}", self)
+            raise ev.err(f"jsonschema type checker attribute {name}", node, mod)
+
     class JSValidatorClass:
+        def __init__(self, type_checker=None, extended=None):
+            self.type_checker = type_checker or TypeCheckerV()
+            self.extended = extended          # keyword validators added/overridden: not modelled
+
         def sym_call(self, ev, args, kwargs, n, mod):
-            return JSValidator(kwargs.get("schema", args[0] if args else None))
+            v = JSValidator(kwargs.get("schema", args[0] if args else None))
+            v.cls = self
+            cap.setdefault("classes", []).append(self)
+            return v
 
         def sym_getattr(self, ev, name, node, mod):
             if name == "check_schema":
                 return BoundLib("identity_none", self)
+            if name == "TYPE_CHECKER":
+                return self.type_checker
             raise ev.err(f"jsonschema validator class attribute {name}", node, mod)
+
+    def tc_redefine(ev, a, k):
+        tc, name, fn = a
+        return TypeCheckerV({**tc.over, name: fn})
+
+    def tc_redefine_many(ev, a, k):
+        tc, d = a[0], a[1] if len(a) > 1 else k.get("definitions")
+        if not isinstance(d, DictV):
+            raise AnalysisError("TypeChecker.redefine_many of something that is not a constant dict")
+        return TypeCheckerV({**tc.over, **d.d})
+
+    def tc_remove(ev, a, k):
+        raise AnalysisError("TypeChecker.remove: a schema type made unknown is not modelled")
+
+    def js_extend(ev, a, k):
+        kk = k.all()
+        base = a[0] if a else kk.get("validator")
+        if not isinstance(base, JSValidatorClass):
+            raise AnalysisError("jsonschema.validators.extend of something that is not a validator class")
+        if kk.get("validators") or len(a) > 1 or kk.get("format_checker") is not None or kk.get("version") is not None:
+            raise AnalysisError("jsonschema.validators.extend with keyword validators / format checker: altered schema semantics are not modelled")
+        return JSValidatorClass(type_checker=kk.get("type_checker") or base.type_checker)
 
     def js_validate(ev, a, k):
         kk = k.all()
@@ -261,6 +302,7 @@ def r_defaults(ctx, model):
     intr2.update({
         "json.load": load_schema, "json.loads": load_schema,
         "jsonschema.validate": js_validate, "jsv.check": jsv_check, "identity_none": lambda ev, a, k: None,
+        "jstc.redefine": tc_redefine, "jstc.redefine_many": tc_redefine_many, "jstc.remove": tc_remove, "jsonschema.validators.extend": js_extend,
         "jsonschema.validators.validator_for": lambda ev, a, k: (k.all(), JSValidatorClass())[1],
         "jsonschema.exceptions.best_match": lambda ev, a, k: None, "jsonschema.exceptions.relevance": lambda ev, a, k: None,
     })
@@ -276,6 +318,25 @@ def r_defaults(ctx, model):
     cap["opened"] = [p_.text for p_ in fs2.opened()]
     ok = inst is cfg and isinstance(sch, DictV) and unmark(sch) == {"schema": "S"} and cap["opened"] == ["schema/config.schema.json"] \
         and len(parsed) == 1 and parsed[0].anchor == "packaged"
+    # redefined type checks (validators.extend(..., type_checker=...)): folded on sample instances of every JSON kind and compared
+    # with the standard meaning of the schema's types - a boolean is neither a "number" nor an "integer", a string never is
+    samples = [("true", True), ("false", False), ("a string", "1"), ("null", None), ("a list", Tup([], "list")), ("a mapping", DictV({})),
+               ("an integer", sp.Integer(3)), ("a non-integral number", sp.Rational(3, 2))]
+    standard = {"number": {"an integer", "a non-integral number"}, "integer": {"an integer"}, "string": {"a string"}, "boolean": {"true", "false"},
+                "null": {"null"}, "array": {"a list"}, "object": {"a mapping"}}
+    for vc in cap.get("classes", []):
+        for tname, fn in vc.type_checker.over.items():
+            if tname not in standard:
+                raise AnalysisError(f"redefined JSON type {tname!r} is not modelled")
+            accepted = set()
+            for label, sample in samples:
+                r = ev2.call(fn, [vc.type_checker, sample], {}, None, model.mods["cij.io.config.validate"])
+                if ev2.truth(r):
+                    accepted.add(label)
+            ctx.check(accepted == standard[tname], f"redefined check of JSON type {tname!r} keeps the standard meaning on sample instances of every kind", model.where(vref, vf),
+                      expected=f"accepts exactly {sorted(standard[tname])}", found=f"accepts {sorted(accepted)}",
+                      explanation=f"validation redefines what counts as {tname!r}: it now accepts {sorted(accepted - standard[tname]) or 'fewer values'} - a wrongly "
+                                  f"typed setting (e.g. a boolean for a numeric field) is no longer rejected", key=f"validate.type.{tname}")
     ctx.check(ok, "validate_config validates the given object against the packaged schema", model.where(vref, vf),
               expected="jsonschema.validate(instance=config, schema=<schema/config.schema.json>)", found=f"opened {cap.get('opened')}, instance is config: {inst is cfg}",
               explanation="validation does not check the configuration against the packaged schema", key="validate.wiring")
